@@ -12,6 +12,7 @@ Campaigns (all specs JSON-able):
            position of the column needing a cast x both payload implementations; every index list of length <=3 over a
            3x3 matrix.
 """
+import json
 import datetime
 import itertools
 import numbers
@@ -57,6 +58,7 @@ FLOORS = {
     'entry:nontrivial': 0.08,
     'matrix:repeat': 0.05,
     'matrix:empty-selection': 0.02,
+    'decoded:layouts-differ': 0.5,
 }
 
 KINDS = {
@@ -566,10 +568,110 @@ def enumerate_extra(ctx, shard, nshards):
         ctx.extra['exhaustive_arrangements_up_to_fields'] = top
 
 
+# ---- decoded campaign: request histories decoded by the stock decoders within one process -----------------------------------
+_DKINDS = ['int', 'int', 'float', 'str']
+
+
+def _dvalue(kind: str, col: int, k: int):
+    """Column-distinct values that survive JSON / CSV text unchanged."""
+    if kind == 'int':
+        return col * 1000 + k
+    if kind == 'float':
+        return col * 1000 + k + 0.5
+    return f'c{col}v{k}'
+
+
+@st.composite
+def decoded_spec(draw):
+    """2-4 requests against one query; the requests differ in names / order while mostly keeping the same sequence of
+    column types, as clients with different field orders (or another model's clients) hitting one gateway process do."""
+    n = draw(st.integers(2, 4))
+    uniform = draw(st.integers(0, 3)) > 0
+    kinds = [draw(st.sampled_from(_DKINDS))] * n if uniform else [draw(st.sampled_from(_DKINDS)) for _ in range(n)]
+    query = [[f'q{i}', k] for i, k in enumerate(kinds)]
+    requests = []
+    for _ in range(draw(st.integers(2, 4))):
+        cols = [[f'q{i}', k, i] for i, k in enumerate(kinds)]
+        shape = draw(st.sampled_from(['identity', 'perm', 'perm', 'replace', 'replace', 'extras', 'missing']))
+        if shape in ('replace', 'missing'):
+            i = draw(st.integers(0, n - 1))
+            kind = cols[i][1]
+            cols.pop(i)
+            if shape == 'replace':  # a required column replaced by a foreign one of the same type, at the same position
+                cols.insert(i, [f'x{i}', kind, None])
+        if shape == 'extras':
+            cols.insert(draw(st.integers(0, len(cols))), ['x9', draw(st.sampled_from(_DKINDS)), None])
+        if shape == 'perm' or draw(st.integers(0, 3)) == 0:
+            cols = list(draw(st.permutations(cols)))
+        nrows = draw(st.integers(1, 3))
+        ks = [[draw(st.integers(0, 99)) for _ in cols] for _ in range(nrows)]
+        rows = [[_dvalue(kind, (qi if qi is not None else 50 + pos), k) for pos, ((_, kind, qi), k) in enumerate(zip(cols, kr))] for kr in ks]
+        requests.append({'names': [c[0] for c in cols], 'rows': rows, 'format': draw(st.sampled_from(['json', 'json', 'csv']))})
+    return {'query': query, 'requests': requests, 'stmt': draw(st.sampled_from(['table', 'select']))}
+
+
+def _encode(req) -> tuple:
+    names = req['names']
+    if req['format'] == 'json':
+        return json.dumps([dict(zip(names, row)) for row in req['rows']]).encode(), 'application/json'
+    text = ','.join(names) + '\n' + ''.join(','.join(str(v) for v in row) + '\n' for row in req['rows'])
+    return text.encode(), 'text/csv'
+
+
+def check_decoded(ctx, spec):
+    qnames = [n for n, _ in spec['query']]
+    qschema = make_schema(spec['query'])
+    table = dsl.Table(qschema)
+    statement = table if spec['stmt'] == 'table' else table.select(*(table[n] for n in qnames))
+    reader = Reader({}, {})
+    layouts = [tuple(r['names']) for r in spec['requests']]
+    classes = ['decoded', f"decoded:requests={len(spec['requests'])}"]
+    if len({k for _, k in spec['query']}) == 1:
+        classes.append('decoded:uniform-types')
+    if len(set(layouts)) > 1:
+        classes.append('decoded:layouts-differ')
+    if any(set(qnames) - set(names) for names in layouts):
+        classes.append('decoded:some-incomplete')
+    ctx.case(spec, nontrivial=len(set(layouts)) > 1, classes=classes)
+    for idx, req in enumerate(spec['requests']):
+        names = req['names']
+        missing = [n for n in qnames if n not in names]
+        tags = [req['format']] + (['later-request'] if idx else [])
+        body, ctype = _encode(req)
+        try:
+            entry = layout.get_decoder(layout.Encoding(ctype)).loads(body)
+        except Exception as exc:  # pylint: disable=broad-except
+            ctx.fail_exc(spec, 'decode-raises', exc, tags)
+            return
+        try:
+            got = [list(r) for r in reader(statement, entry).to_rows()]
+        except forml.MissingError as exc:
+            if not missing:
+                ctx.fail_exc(spec, 'decoded-complete-refused', exc, tags)
+                return
+            continue
+        except Exception as exc:  # pylint: disable=broad-except
+            ctx.fail_exc(spec, 'decoded-refusal-type' if missing else 'decoded-read-raises', exc, tags)
+            return
+        if missing:
+            ctx.fail(spec, 'decoded-refusal', 'missing-accepted', f'request {idx} {names} lacks {missing} but got {got!r:.300}', tags)
+            return
+        pos = {n: i for i, n in enumerate(names)}
+        expected = [[row[pos[n]] for n in qnames] for row in req['rows']]
+        if len(got) != len(expected) or any(len(g) != len(e) for g, e in zip(got, expected)):
+            ctx.fail(spec, 'decoded-shape', 'differs', f'request {idx}: got {got!r:.300} expected {expected!r:.300}', tags)
+            return
+        for g, e in zip(got, expected):
+            if not all(same(a, b) for a, b in zip(g, e)):
+                ctx.fail(spec, 'decoded-cell', 'misrouted', f'request {idx} {names}: got {g!r} expected {e!r} (requests before: {layouts[:idx]})', tags)
+                return
+
+
 def campaigns(ctx):
     return [
         Campaign('entry', entry_spec(), check_entry, 2500, 20000),
         Campaign('matrix', matrix_spec(), check_matrix, 1200, 8000),
+        Campaign('decoded', decoded_spec(), check_decoded, 600, 5000),
     ]
 
 
